@@ -1,7 +1,7 @@
 (* C19LeafPPProofs.v — leaf_pp / pre_pp (C19PrintParseProofs) for every leaf kind that occurs in an init segment
    built through the API, for all in-range field values. *)
 From V.lib Require Import Base.
-From V.c01 Require Import C01Codec C01Model.
+From V.c19 Require Import C19BoxCodec C19BoxModel.
 From V.c19 Require Import C19Model C19TreeModel C19LeafProofs C19PrintParseProofs.
 
 Ltac lens := rewrite ?lenN_app, ?lenN_be_enc, ?lenN_zeros; cbn [N.of_nat Pos.of_succ_nat Pos.succ]; try lia.
